@@ -6,7 +6,8 @@
    codes: 0 agree; 1 match bits differ; 3 specificity differs; 4 pseudo-element
    differs; 5 parser model disagrees with ParseGroup (error / structure);
    6 printer model disagrees with String(); 7 String() does not re-parse to an
-   equivalent selector; 8 the implementation panicked; 10 a parsed selector is outside the normal form
+   equivalent selector; 8 the implementation panicked; 11 Specificity.Less / Add on a pair of triples differs
+   from spec_less / spec_add (the lexicographic order of C05_specificity_less_lex); 10 a parsed selector is outside the normal form
    SelRoundtrip.normal_group or the model's print/parse round trip changes it; 20 / 21 the implementation (and the model) still deviate from Selectors 4 on the
    witness of C05_has_relative_refuted / C05_blank_attr_refuted (known findings); 9 malformed case, or the dumped tree violates
    the invariants assumed of html.Parse (Sel.dom_wfb). *)
@@ -28,8 +29,12 @@ Inductive selcase :=
                                        (* = SC src (Some g) gbits each printed (Some g): the re-parse has the same structure *)
 | SCPanic (src : str).
 
+(* Specificity.Less / Add called directly on a pair of triples *)
+Inductive lesscase := LC (x y : spec3) (less : bool) (sum : spec3).
+
 Inductive case :=
 | CDoc (d : node) (sels : list selcase)
+| CLess (l : list lesscase)
 (* replay of the witnesses of the proved deviations (Properties/C05.v): the tree html.Parse built,
    the parsed selector, the index of the witness node in document order, Match's answer.
    k = 1: C05_has_relative_refuted (Selectors 4: no match); k = 2: C05_blank_attr_refuted (Selectors 4: match) *)
@@ -134,9 +139,20 @@ Definition witness_check (k : N) (d : node) (g : list sel) (i : N) (impl : bool)
     else 9%N
   else 9%N.
 
+Definition less_code (c : lesscase) : N :=
+  let 'LC x y l s := c in
+  if Bool.eqb (spec_less x y) l && spec_eqb (spec_add x y) s then 0%N else 11%N.
+
+Fixpoint less_codes (l : list lesscase) : N :=
+  match l with
+  | [] => 0%N
+  | c :: r => let k := less_code c in if N.eqb k 0 then less_codes r else k
+  end.
+
 Definition check (c : case) : N :=
   match c with
   | CDoc d sels => if dom_wfb d then first_code d sels else 9%N
+  | CLess l => less_codes l
   | CWitness k d g i impl => witness_check k d g i impl
   end.
 
@@ -145,6 +161,9 @@ Definition check (c : case) : N :=
 Inductive model_sel := MS (code : N) (parsed : res (option (list sel))) (gbits : N) (each : list selobs) (printed : str).
 Definition model_out (c : case) : list model_sel :=
   match c with
+  | CLess l =>   (* per pair: the code, and (x+y, "", x<y as 1/0) in the place of the observables *)
+      map (fun lc => let 'LC x y _ _ := lc in
+                     MS (less_code lc) (Ok None) 0%N [SO (spec_add x y) [] (if spec_less x y then 1%N else 0%N)] []) l
   | CWitness k d g i impl =>
       [MS (witness_check k d g i impl) (Ok (Some g)) (bits d (matches_group d g)) (map (model_obs d) g) (print_group g)]
   | CDoc d sels =>
